@@ -1,11 +1,13 @@
 #!/usr/bin/env python3
-"""covlines.py <cases.txt> <file.rs> [a-b ...] : runs the coverage-instrumented harness (/tmp/cov, built by the recipe in tools/covscan.py) on a case
+"""covlines.py [--branches] <cases.txt> <file.rs> [a-b ...] : (--branches: also the taken-counts of each branch direction, block.branch=count, "-" = never evaluated) runs the coverage-instrumented harness (/tmp/cov, built by the recipe in tools/covscan.py) on a case
 file and prints, for the given line ranges of src/<file.rs> (default: every instrumented line), the execution counts; also judges the outputs
 with the extracted model (/verif/ocaml/driver) and prints the verdict summary - a REJECT on the unchanged crate is either a model error or a
 genuine defect and must be reported.  Development-time tool."""
 import sys, os, subprocess, tempfile, collections
 TOOLS = os.path.expanduser('~/.rustup/toolchains/nightly-x86_64-unknown-linux-gnu/lib/rustlib/x86_64-unknown-linux-gnu/bin')
-BIN = '/tmp/cov/harness/target/debug/verif-harness'
+BR = '--branches' in sys.argv
+if BR: sys.argv.remove('--branches')
+BIN = '/tmp/cov/harness/target_br/debug/verif-harness' if BR else '/tmp/cov/harness/target/debug/verif-harness'
 DRIVER = os.path.join(os.path.dirname(os.path.dirname(os.path.abspath(__file__))), 'ocaml', 'driver')
 cases, fname = sys.argv[1], sys.argv[2]
 rngs = [tuple(int(x) for x in (a.split('-') if '-' in a else (a, a))) for a in sys.argv[3:]]
@@ -19,12 +21,14 @@ print('judge:', v[-1] if v else 'no output');
 for l in bad[:10]: print('  NOT ACCEPTED:', l[:300])
 subprocess.run('%s/llvm-profdata merge -sparse %s/p.profraw -o %s/p.profdata' % (TOOLS, d, d), shell=True, check=True)
 lc = subprocess.run('%s/llvm-cov export --format=lcov --instr-profile=%s/p.profdata %s' % (TOOLS, d, BIN), shell=True, capture_output=True, text=True).stdout
-cur = None; cov = {}
+cur = None; cov = {}; brs = {}
 for l in lc.split('\n'):
     if l.startswith('SF:'): cur = l[3:]
+    elif l.startswith('BRDA:') and cur and cur.endswith('/src/' + fname):
+        ln, blk, b, t = l[5:].split(','); brs.setdefault(int(ln), []).append('%s.%s=%s' % (blk, b, t))
     elif l.startswith('DA:') and cur and cur.endswith('/src/' + fname):
         ln, c = l[3:].split(',')[:2]; cov[int(ln)] = int(c)
 if not rngs: rngs = [(min(cov), max(cov))] if cov else []
 for a, b in rngs:
     for k in range(a, b + 1):
-        if k in cov: print('%s:%d  %d' % (fname, k, cov[k]))
+        if k in cov: print('%s:%d  %d%s' % (fname, k, cov[k], ('   branches ' + ' '.join(brs[k])) if BR and k in brs else ''))
